@@ -14,6 +14,7 @@ package hdkeychain
 //@   ensures bytesEq(result, 0, old(dst), 0, len(dst))
 //@   ensures forall j int :: len(dst) <= j && j < len(result)-len(src) ==> result[j] == 0
 //@   ensures bytesEq(result, len(result)-len(src), old(src), 0, len(src))
+//@   ensures sameBlock(result, old(dst)) || fresh(result)
 //@   loop#1 invariant 0 <= i && (i <= mathint(size)-len(src) || i == 0) && len(dst) == old(len(dst)) + i
 //@   loop#1 invariant unchanged(src) && (dst == nil || disjoint(dst, src)) && (sameBlock(dst, old(dst)) || fresh(dst))
 //@   loop#1 invariant bytesEq(dst, 0, old(dst), 0, old(len(dst)))
